@@ -121,7 +121,7 @@ def _workbooks(rnd, n, W):
         wb.late = late            # text that starts with '=': assigned with set_value after compiling
         wbs.append(wb)
         k += 1
-    wbs += W.grammar(rnd, 6)
+    wbs += W.grammar(rnd, 6) + W.random_dags(rnd, 4)
     return wbs
 
 
